@@ -28,7 +28,7 @@ static string cfg_str(const Cfg &c) { return mcx::fmt("start=%s sizes=%s useACAf
 static string gstr(int n, const EL &es) { string s = mcx::fmt("n=%d edges:", n); for (auto &e : es) s += mcx::fmt(" %d-%d", e.first, e.second); return s; }
 
 static void run_one(int n, const EL &es, const Cfg &c) {
-    string desc = "doHOLA " + gstr(n, es) + " " + cfg_str(c), why, obs;
+    string desc = "doHOLA " + gstr(n, es) + " " + cfg_str(c), why, obs; int sepViol = 0, sepViolBentEdgeAlign = 0;
     ostringstream t; vector<pair<double, double>> dims;
     for (int i = 0; i < n; i++) {
         double x, y; if (c.start == 0) { double a = 2 * M_PI * i / n; x = 100 + 80 * cos(a); y = 100 + 80 * sin(a); } else if (c.start == 1) { x = 100; y = 100; } else { x = 60 * i; y = 0; }
@@ -68,7 +68,9 @@ static void run_one(int n, const EL &es, const Cfg &c) {
                 for (auto &u : ns) { if (u->id() == ends.first || u->id() == ends.second) continue; if (segHitsBox(r[k - 1].x, r[k - 1].y, r[k].x, r[k].y, u->getBoundingBox(), 1e-6)) { why = "route passes through a third node"; obs = mcx::fmt("edge %d-%d seg (%g,%g)-(%g,%g) node %d", e->getSourceEnd()->getExternalId(), e->getTargetEnd()->getExternalId(), r[k - 1].x, r[k - 1].y, r[k].x, r[k].y, u->getExternalId()); } }
             }
             Node_SP a = g->getNodeLookup().at(ends.first), b = g->getNodeLookup().at(ends.second); BoundingBox ba = a->getBoundingBox(), bb = b->getBoundingBox();
-            auto inb = [&](Avoid::Point q, BoundingBox B) { return q.x >= B.x - 1e-6 && q.x <= B.X + 1e-6 && q.y >= B.y - 1e-6 && q.y <= B.Y + 1e-6; };
+            // "within the documented node padding": HolaOpts::nodePaddingScalar x ideal edge length is added to each node's width and height during layout
+            double padTol = opts.nodePaddingScalar * g->getIEL() / 2 + 1e-6;
+            auto inb = [&](Avoid::Point q, BoundingBox B) { return q.x >= B.x - padTol && q.x <= B.X + padTol && q.y >= B.y - padTol && q.y <= B.Y + padTol; };
             if (!((inb(r.front(), ba) && inb(r.back(), bb)) || (inb(r.front(), bb) && inb(r.back(), ba)))) why = "route does not begin/end at its end nodes";
         }
         ctx.cls("total_bends", mcx::fmt("%d", min(bends, 12)));
@@ -77,7 +79,11 @@ static void run_one(int n, const EL &es, const Cfg &c) {
         for (int d = 0; d < 2; d++) {
             vpsc::Variables vs; for (size_t i = 0; i < cgr.rs.size(); i++) vs.push_back(new vpsc::Variable(i, d == 0 ? cgr.rs[i]->getCentreX() : cgr.rs[i]->getCentreY()));
             vpsc::Constraints cs; g->getSepMatrix().generateSeparationConstraints((vpsc::Dim)d, vs, cs, cgr.rs);
-            for (auto cc : cs) { ncons++; double sl = cc->right->desiredPosition - cc->left->desiredPosition - cc->gap; if (cc->equality ? fabs(sl) > 1e-4 : sl < -1e-4) { why = "returned separation constraint violated"; obs = mcx::fmt("dim %d: var%d + %g %s var%d, slack %g", d, cc->left->id, cc->gap, cc->equality ? "==" : "<=", cc->right->id, sl); } delete cc; }
+            for (auto cc : cs) { ncons++; double sl = cc->right->desiredPosition - cc->left->desiredPosition - cc->gap; if (cc->equality ? fabs(sl) > 1e-4 : sl < -1e-4) { why = "returned separation constraint violated"; obs = mcx::fmt("dim %d: var%d + %g %s var%d, slack %g", d, cc->left->id, cc->gap, cc->equality ? "==" : "<=", cc->right->id, sl); sepViol++;
+                    // is it an alignment (== with gap 0) of the two ends of an edge whose returned route has bends?
+                    if (cc->equality && cc->gap == 0) { id_type ia = 0, ib = 0; bool fa = false, fb = false; for (auto &q : cgr.id2ix) { if ((int)q.second == cc->left->id) { ia = q.first; fa = true; } if ((int)q.second == cc->right->id) { ib = q.first; fb = true; } }
+                        if (fa && fb) for (auto &p : g->getEdgeLookup()) { auto en = p.second->getEndIds(); if (((en.first == ia && en.second == ib) || (en.first == ib && en.second == ia)) && p.second->getRoute().size() > 2) { sepViolBentEdgeAlign++; break; } } } }
+                delete cc; }
             for (auto v : vs) delete v;
         }
         if (ncons > 0 && es.size() >= (size_t)n) ctx.count("nontrivial_runs");
@@ -89,7 +95,8 @@ static void run_one(int n, const EL &es, const Cfg &c) {
 #endif
     vector<string> kc; if (c.aspect != 2 && c.sizes) kc.push_back("aspect_rotation_nonsquare");
     if (c.optset == 4 && (int)es.size() == n - 1) kc.push_back("strict_tree_routing_with_node_padding_half");   // a pure tree laid out with wholeTreeRouting=STRICT and nodePaddingScalar=0.5
-    if (c.start == 2 && n >= 5) kc.push_back("collinear_start");   // every node centre initially on one line (degenerate for the stress layout)
+    if (c.start == 2 && n >= 5) kc.push_back("collinear_start");
+    if (sepViol > 0 && sepViol == sepViolBentEdgeAlign) kc.push_back("alignment_of_an_edge_that_is_routed_with_bends");   // every node centre initially on one line (degenerate for the stress layout)
     if (!why.empty()) ctx.violation(why, kc, desc, obs);
 }
 static void phase(int n, const vector<Cfg> &cfgs, const char *label) {
